@@ -200,9 +200,7 @@ def stepLine (st : St) (toks : List String) : St :=
 def firstBad : PyDict Str Nat → List Step → Nat → Option Nat
   | _, [], _ => none
   | exp, s :: rest, i =>
-    if stepInScope s then
-      if stepOk exp s then firstBad (s.exch.foldl foldExch exp) rest (i + 1) else some i
-    else none
+    if stepOk exp s then firstBad (s.exch.foldl foldExch exp) rest (i + 1) else some i
 
 def explain (exp : PyDict Str Nat) (s : Step) : String :=
   let exp' := s.exch.foldl foldExch exp
@@ -234,7 +232,7 @@ def main : IO UInt32 := do
           match firstBad [] steps 0 with
           | some i => notes := notes ++ [s!"judge step{i} {explain (expAt [] steps i) (steps.getD i ⟨.resubscribeAll, [], .none, [], []⟩)}"]
           | none => pure ()
-        if !inDom then notes := notes ++ ["out-of-scope-timeout"]
+        if !inDom then notes := notes ++ ["non-canonical-timeout"]
         out.putStrLn s!"case {cur} corr={if st.corrOk && st.parseOk then "ok" else "MISMATCH"} judge={if j then "ok" else "FAIL"} {" ; ".intercalate notes}"
     | [] => pure ()
     | _ => st := stepLine st toks
